@@ -273,7 +273,7 @@ PROPS["C13"] = {
 
 PROPS["C17"] = {
     "bounded_checks": [
-        {"name": "privacy", "searcher": "privacy", "clause": "whole-pipeline privacy / resolution on programs with nested modules, use, multi-import, wildcard import, re-export", "bound": "29 hand-written programs with the expected accept / reject verdict"},
+        {"name": "privacy", "searcher": "privacy", "clause": "whole-pipeline privacy / resolution on programs with nested modules, use, multi-import, wildcard import, re-export", "bound": "33 hand-written programs with the expected accept / reject verdict"},
     ],
     "verus_units": ["resolve_names", "use_tables", "resolve_walk"],
     "replay": "privacy",
